@@ -330,6 +330,11 @@ pub fn explore(cfg: &LensCfg, lim: &Limits) -> ExploreResult {
         let next_item = AtomicUsize::new(0);
         let stop = AtomicBool::new(false);
         let timed_out = AtomicBool::new(false);
+        // Memory guard: the candidates of one level are kept until the level is merged; their total size is capped
+        // (a level that hits the cap is reported as not completed, exactly like a level that hits the time cap)
+        let mem_out = AtomicBool::new(false);
+        let cand_count = AtomicUsize::new(0);
+        let cand_cap: usize = std::env::var("CCMC_MAX_LEVEL_BYTES").ok().and_then(|v| v.parse::<usize>().ok()).unwrap_or(16usize << 30) / std::mem::size_of::<Candidate>().max(1);
         let found: Mutex<Vec<Found>> = Mutex::new(Vec::new());
         let pruned: Mutex<Vec<(String, u64, Found)>> = Mutex::new(Vec::new());
         let machinery: Mutex<Vec<String>> = Mutex::new(Vec::new());
@@ -346,6 +351,8 @@ pub fn explore(cfg: &LensCfg, lim: &Limits) -> ExploreResult {
                     let next_item = &next_item;
                     let stop = &stop;
                     let timed_out = &timed_out;
+                    let mem_out = &mem_out;
+                    let cand_count = &cand_count;
                     let found = &found;
                     let pruned = &pruned;
                     let machinery = &machinery;
@@ -441,6 +448,15 @@ pub fn explore(cfg: &LensCfg, lim: &Limits) -> ExploreResult {
                                     }
                                 }
                             }
+                            // duplicates inside one chunk are dropped right away (first occurrence in work order wins)
+                            {
+                                let mut local: HashSet<u128, BuildHasherDefault<IdHasher>> = HashSet::default();
+                                out.retain(|cd| local.insert(cd.key));
+                            }
+                            if cand_count.fetch_add(out.len(), Ordering::Relaxed) + out.len() > cand_cap {
+                                mem_out.store(true, Ordering::Relaxed);
+                                stop.store(true, Ordering::Relaxed);
+                            }
                             *chunk_out[ci].lock().unwrap() = out;
                             if t0.elapsed().as_secs_f64() > lim.max_seconds * 1.5 + 30.0 {
                                 timed_out.store(true, Ordering::Relaxed);
@@ -481,6 +497,10 @@ pub fn explore(cfg: &LensCfg, lim: &Limits) -> ExploreResult {
         }
         if timed_out.load(Ordering::Relaxed) {
             res.cut_reason = Some(format!("time cap reached while expanding depth {} (level not completed)", depth));
+            break;
+        }
+        if mem_out.load(Ordering::Relaxed) {
+            res.cut_reason = Some(format!("memory cap reached while expanding depth {} (level not completed)", depth));
             break;
         }
         // Merge in work order (deterministic)
